@@ -58,9 +58,9 @@ def _kill(p):
         pass
 
 
-def list_properties(b, cwd):
+def list_properties(b, cwd, timeout=120):
     """-> [(id, description)] from `cbmc --show-properties` (id line, location line, description line, expression)"""
-    rc, out, s, to = run(['cbmc', '--show-properties', b], cwd=cwd, timeout=120)
+    rc, out, s, to = run(['cbmc', '--show-properties', b], cwd=cwd, timeout=timeout)
     lines = out.splitlines()
     props = []
     for i, ln in enumerate(lines):
@@ -402,7 +402,7 @@ def _small_scope_refute(r, workdir, name, harness_file, entry, enforce, replace,
     for fpath in files:
         for m in re.finditer(r'^\s*#\s*define\s+(\w+)\s+(\d+)\s*$', open(fpath, errors='replace').read(), re.M):
             caps.setdefault(m.group(1), int(m.group(2)))
-    caps.update(small)
+    caps.update({k_: v_ for k_, v_ in small.items() if not k_.startswith('_')})
     nq = 0
     for fpath in files:
         t = open(fpath, errors='replace').read()
@@ -413,7 +413,7 @@ def _small_scope_refute(r, workdir, name, harness_file, entry, enforce, replace,
             except finite.FiniteBreak:
                 pass          # left as it is; if the unit really includes it the survivor test below stops the pass
         open(os.path.join(inc, os.path.basename(fpath)), 'w').write(t)
-    small_defs = ['%s=%d' % kv for kv in sorted(small.items())]
+    small_defs = ['%s=%d' % kv for kv in sorted(small.items()) if not kv[0].startswith('_')]
     a = os.path.join(workdir, name + '.small.a.gb')
     b = os.path.join(workdir, name + '.small.b.gb')
     cc = ['goto-cc', '-I', inc, '--function', entry] + ['-D' + d for d in list(defines) + small_defs] + [os.path.join(inc, os.path.basename(harness_file)), '-o', a]
@@ -437,7 +437,7 @@ def _small_scope_refute(r, workdir, name, harness_file, entry, enforce, replace,
     if rc != 0:
         r.log += '\n--- small-scope: goto-instrument failed\n' + out[-1500:]
         return
-    props, plog = list_properties(b, workdir)
+    props, plog = list_properties(b, workdir, timeout=600)
     key = [p_ for p_, d_ in props if p_.startswith(prefixes) and not d_.strip().endswith('canary') and re.search(r'postcondition|loop_invariant|precondition|assertion|loop_step|loop_decreases', p_)]
     if not key:
         r.log += '\n--- small-scope: no key obligations found\n'
@@ -446,10 +446,19 @@ def _small_scope_refute(r, workdir, name, harness_file, entry, enforce, replace,
     for p_ in key:
         sel += ['--property', p_]
     # the key obligations only (contract clauses, loop invariants, callee preconditions, assertions), stop at the first counterexample
-    rc, o, s_, to = run(['cbmc', '--stop-on-fail', '--trace'] + sel + [b], cwd=workdir, timeout=int(os.environ.get('VF_SS_TIMEOUT', '600')))
+    sstmo = int(os.environ.get('VF_SS_TIMEOUT', '600'))
+    if small.get('_smt'):
+        # units over exact reals (__CPROVER_rational) cannot go to the SAT back end: the quantifier-free text is sent to the SMT solvers one after
+        # the other; only an answer whose model CBMC can read back (a printed trace) is used
+        for flag in (['--z3'], ['--cvc5']):
+            rc, o, s_, to = run(['cbmc'] + flag + ['--stop-on-fail', '--trace'] + sel + [b], cwd=workdir, timeout=sstmo // 2)
+            if not to and ('VERIFICATION FAILED' in o or 'VERIFICATION SUCCESSFUL' in o):
+                break
+    else:
+        rc, o, s_, to = run(['cbmc', '--stop-on-fail', '--trace'] + sel + [b], cwd=workdir, timeout=sstmo)
     vm = re.search(r'Violated property:\n(.*?)\n\s*\n', o, re.S)
-    r.log += '\n--- small-scope refutation pass (%s; %d quantifiers expanded; SAT, --stop-on-fail over %d key obligations): %s\n' % (
-        ' '.join(small_defs), nq, len(key), 'timeout' if to else ('counterexample' if 'VERIFICATION FAILED' in o else 'no counterexample at this scope' if 'VERIFICATION SUCCESSFUL' in o else 'no answer'))
+    r.log += '\n--- small-scope refutation pass (%s; %d quantifiers expanded; %s, --stop-on-fail over %d key obligations): %s\n' % (
+        ' '.join(small_defs), nq, 'SMT z3/cvc5' if small.get('_smt') else 'SAT', len(key), 'timeout' if to else ('counterexample' if 'VERIFICATION FAILED' in o else 'no counterexample at this scope' if 'VERIFICATION SUCCESSFUL' in o else 'no answer'))
     if 'VERIFICATION FAILED' in o and vm and not to:
         desc = ' '.join(vm.group(1).split())
         fm = re.search(r'line (\d+)', desc)
